@@ -174,18 +174,18 @@ Proof. vm_compute. repeat split. Qed.
 (* GET with If-None-Match: W/"v1" and an If-Modified-Since that does NOT cover the entity, entity ETag "v1": 304 *)
 Definition ex_req : creq :=
   {| rq_get_or_head := true; rq_ranged := false;
-     rq_hdrs := [ one_field [73;102;45;78;111;110;101;45;77;97;116;99;104] [87;47;34;118;49;34];
-                  one_field [73;102;45;77;111;100;105;102;105;101;100;45;83;105;110;99;101] [120] ] |}.
+     rq_hdrs := [ one_field [73;102;45;78;111;110;101;45;77;97;116;99;104]%nat [87;47;34;118;49;34];
+                  one_field [73;102;45;77;111;100;105;102;105;101;100;45;83;105;110;99;101]%nat [120] ] |}.
 Example C14_decision_example :
   hit_verdict (fun _ => 5%Z) ex_req wit_entry = V304 /\
   hit_verdict (fun _ => 5%Z) {| rq_get_or_head := true; rq_ranged := true; rq_hdrs := rq_hdrs ex_req |} wit_entry = VHit /\
   hit_verdict (fun _ => 5%Z) {| rq_get_or_head := true; rq_ranged := false;
-                                rq_hdrs := [one_field [73;102;45;77;97;116;99;104] [87;47;34;118;49;34]] |} wit_entry = V412.
+                                rq_hdrs := [one_field [73;102;45;77;97;116;99;104]%nat [87;47;34;118;49;34]] |} wit_entry = V412.
 Proof. vm_compute. repeat split. Qed.
 (* a 304 carrying X-Foo replaces both stored x-foo fields, keeps ETag, appends in the 304's order *)
 Example C14_merge_example :
-  let old := [one_field [69;84;97;103] [49]; one_field [120;45;102;111;111] [50]; one_field [88;45;70;111;111] [51]] in
-  let fresh := [one_field [88;45;70;79;79] [52]; one_field [86;97;114;121] [53]] in
+  let old := [one_field [69;84;97;103]%nat [49]; one_field [120;45;102;111;111]%nat [50]; one_field [88;45;70;111;111]%nat [51]] in
+  let fresh := [one_field [88;45;70;79;79]%nat [52]; one_field [86;97;114;121]%nat [53]] in
   need_update old fresh = true /\
-  update_on_not_modified old fresh = [one_field [69;84;97;103] [49]; one_field [88;45;70;79;79] [52]].
+  update_on_not_modified old fresh = [one_field [69;84;97;103]%nat [49]; one_field [88;45;70;79;79]%nat [52]].
 Proof. vm_compute. repeat split. Qed.
